@@ -1,9 +1,11 @@
 package main
 
 import (
+	"encoding/json"
 	"fmt"
 	"net"
 	"net/netip"
+	"reflect"
 	"strings"
 	"time"
 
@@ -145,6 +147,7 @@ func genOp(r *Rand, which int, id uint32, edge bool) OpCase {
 	case 0:
 		return simple("GetDevice", 0x94, fmt.Sprintf("GetDevice %d", id), "GetDeviceResponse", func(u uhppote.IUHPPOTE) string {
 			d, err := u.GetDevice(id)
+			render(d, err)
 			if err != nil {
 				return "RErr"
 			}
@@ -165,6 +168,7 @@ func genOp(r *Rand, which int, id uint32, edge bool) OpCase {
 		}
 		return simple("SetAddress", 0x96, fmt.Sprintf("SetAddress %d %s %s %s", id, coqs[0], coqs[1], coqs[2]), "", func(u uhppote.IUHPPOTE) string {
 			res, err := u.SetAddress(id, ips[0], ips[1], ips[2])
+			render(res, err)
 			if err != nil {
 				return "RErr"
 			}
@@ -210,6 +214,7 @@ func genOp(r *Rand, which int, id uint32, edge bool) OpCase {
 	case 4:
 		return simple("GetTime", 0x32, fmt.Sprintf("GetTime %d", id), "GetTimeResponse", func(u uhppote.IUHPPOTE) string {
 			t, err := u.GetTime(id)
+			render(t, err)
 			if err != nil {
 				return "RErr"
 			}
@@ -225,6 +230,7 @@ func genOp(r *Rand, which int, id uint32, edge bool) OpCase {
 		coq := fmt.Sprintf("SetTime %d %s %s %s %s %s %s", id, zc(t.Year()), zc(int(t.Month())), zc(t.Day()), zc(t.Hour()), zc(t.Minute()), zc(t.Second()))
 		return simple("SetTime", 0x30, coq, "SetTimeResponse", func(u uhppote.IUHPPOTE) string {
 			res, err := u.SetTime(id, t)
+			render(res, err)
 			if err != nil {
 				return "RErr"
 			}
@@ -234,6 +240,7 @@ func genOp(r *Rand, which int, id uint32, edge bool) OpCase {
 		door := genU8(r)
 		return simple("GetDoorControlState", 0x82, fmt.Sprintf("GetDoorControlState %d %d", id, door), "GetDoorControlStateResponse", func(u uhppote.IUHPPOTE) string {
 			s, err := u.GetDoorControlState(id, door)
+			render(s, err)
 			if err != nil {
 				return "RErr"
 			}
@@ -247,6 +254,7 @@ func genOp(r *Rand, which int, id uint32, edge bool) OpCase {
 		}
 		return simple("SetDoorControlState", 0x80, fmt.Sprintf("SetDoorControlState %d %d %s %d", id, door, zc(st), delay), "SetDoorControlStateResponse", func(u uhppote.IUHPPOTE) string {
 			s, err := u.SetDoorControlState(id, door, types.ControlState(st), delay)
+			render(s, err)
 			if err != nil {
 				return "RErr"
 			}
@@ -255,6 +263,7 @@ func genOp(r *Rand, which int, id uint32, edge bool) OpCase {
 	case 8:
 		return simple("GetStatus", 0x20, fmt.Sprintf("GetStatus %d", id), "GetStatusResponse", func(u uhppote.IUHPPOTE) string {
 			s, err := u.GetStatus(id)
+			render(s, err)
 			if err != nil {
 				return "RErr"
 			}
@@ -269,6 +278,7 @@ func genOp(r *Rand, which int, id uint32, edge bool) OpCase {
 		c := genCardNo(r)
 		return simple("GetCardByID", 0x5a, fmt.Sprintf("GetCardByID %d %d", id, c), "GetCardByIDResponse", func(u uhppote.IUHPPOTE) string {
 			card, err := u.GetCardByID(id, c)
+			render(card, err)
 			if err != nil {
 				return "RErr"
 			}
@@ -281,6 +291,7 @@ func genOp(r *Rand, which int, id uint32, edge bool) OpCase {
 		ix := genU32(r)
 		return simple("GetCardByIndex", 0x5c, fmt.Sprintf("GetCardByIndex %d %d", id, ix), "GetCardByIndexResponse", func(u uhppote.IUHPPOTE) string {
 			card, err := u.GetCardByIndex(id, ix)
+			render(card, err)
 			if err != nil {
 				return "RErr"
 			}
@@ -355,6 +366,7 @@ func genOp(r *Rand, which int, id uint32, edge bool) OpCase {
 		p := genU8(r)
 		return simple("GetTimeProfile", 0x98, fmt.Sprintf("GetTimeProfile %d %d", id, p), "GetTimeProfileResponse", func(u uhppote.IUHPPOTE) string {
 			tp, err := u.GetTimeProfile(id, p)
+			render(tp, err)
 			if err != nil {
 				return "RErr"
 			}
@@ -429,6 +441,7 @@ func genOp(r *Rand, which int, id uint32, edge bool) OpCase {
 		ix := genU32(r)
 		return simple("GetEvent", 0xb0, fmt.Sprintf("GetEvent %d %d", id, ix), "GetEventResponse", func(u uhppote.IUHPPOTE) string {
 			e, err := u.GetEvent(id, ix)
+			render(e, err)
 			if err != nil {
 				return "RErr"
 			}
@@ -440,6 +453,7 @@ func genOp(r *Rand, which int, id uint32, edge bool) OpCase {
 	case 23:
 		return simple("GetEventIndex", 0xb4, fmt.Sprintf("GetEventIndex %d", id), "GetEventIndexResponse", func(u uhppote.IUHPPOTE) string {
 			e, err := u.GetEventIndex(id)
+			render(e, err)
 			if err != nil {
 				return "RErr"
 			}
@@ -449,6 +463,7 @@ func genOp(r *Rand, which int, id uint32, edge bool) OpCase {
 		ix := genU32(r)
 		return simple("SetEventIndex", 0xb2, fmt.Sprintf("SetEventIndex %d %d", id, ix), "SetEventIndexResponse", func(u uhppote.IUHPPOTE) string {
 			e, err := u.SetEventIndex(id, ix)
+			render(e, err)
 			if err != nil {
 				return "RErr"
 			}
@@ -477,6 +492,7 @@ func genOp(r *Rand, which int, id uint32, edge bool) OpCase {
 		door := genU8(r)
 		return simple("OpenDoor", 0x40, fmt.Sprintf("OpenDoor %d %d", id, door), "OpenDoorResponse", func(u uhppote.IUHPPOTE) string {
 			res, err := u.OpenDoor(id, door)
+			render(res, err)
 			if err != nil {
 				return "RErr"
 			}
@@ -509,10 +525,29 @@ func genOp(r *Rand, which int, id uint32, edge bool) OpCase {
 
 const nOps = 31
 
+// C04: every value the API returns is rendered with %v and with encoding/json (a panic there is recovered by safeCall)
+var renderOn = false
+
+func render(v any, err error) {
+	if !renderOn || err != nil {
+		return
+	}
+	rv := reflect.ValueOf(v)
+	if rv.Kind() == reflect.Ptr && rv.IsNil() {
+		return
+	}
+	_ = fmt.Sprintf("%v", v)
+	_, _ = json.Marshal(v)
+	if rv.Kind() == reflect.Ptr {
+		_ = fmt.Sprintf("%v", rv.Elem().Interface())
+	}
+}
+
 func getDevicesCase() OpCase {
 	return OpCase{Name: "GetDevices", ID: 0, Coq: "GetDevices", Resp: "GetDeviceResponse", Code: 0x94, JS: map[string]any{"op": "GetDevices"},
 		Run: func(u uhppote.IUHPPOTE) string {
 			ds, err := u.GetDevices()
+			render(ds, err)
 			if err != nil {
 				return "RErr"
 			}
